@@ -21,6 +21,7 @@ type Clause struct {
 	File  string
 	Line  int
 	Props []string // properties this clause belongs to (defaults to the block's)
+	Local bool     // a postcondition that is proved for the function but not handed to its callers
 }
 
 type LoopSpec struct {
@@ -67,6 +68,7 @@ type FuncContract struct {
 	Behavior       string
 	AssumedEnsures []*Clause      // postconditions callers may use but the body check does not establish (listed as assumptions)
 	Splits         []*SplitSpec   // case splits applied to every proof obligation of the function
+	LazySpecs      bool           // at call sites, recursive spec functions in this contract are left folded (unfolded by the solver on demand)
 	Definitional   bool           // postconditions that pin the fresh result are applied as definitions (term rewriting) at call sites
 	GhostUpd       []*GhostUpdate // ghost code executed at every return, before the postconditions
 	Allow          []string
@@ -228,7 +230,7 @@ func parseParams(s string) []SpecParam {
 	return out
 }
 
-var clauseKw = map[string]bool{"behavior": true, "ensuresassumed": true, "split": true, "definitional": true, "set": true, "choose": true, "sqltext": true, "except": true, "allowcalls": true, "nocalls": true, "ensureserror": true, "ensureszero": true, "requires": true, "ensures": true, "modifies": true, "loop": true, "inline": true,
+var clauseKw = map[string]bool{"behavior": true, "ensuresassumed": true, "ensureslocal": true, "split": true, "definitional": true, "lazyspecs": true, "set": true, "choose": true, "sqltext": true, "except": true, "allowcalls": true, "nocalls": true, "ensureserror": true, "ensureszero": true, "requires": true, "ensures": true, "modifies": true, "loop": true, "inline": true,
 	"trusted": true, "pure": true, "opaque": true, "nonnil": true, "props": true, "maypanic": true, "params": true,
 	"assert": true, "call": true}
 
@@ -520,6 +522,13 @@ func (cs *ContractSet) ParseFile(path, pkgPath string) error {
 					cur.AssumedEnsures = append(cur.AssumedEnsures, cl)
 				}
 			}
+		case "ensureslocal":
+			if cur != nil {
+				if cl := mkClause(it, curProps); cl != nil {
+					cl.Local = true
+					cur.Ensures = append(cur.Ensures, cl)
+				}
+			}
 		case "requires", "ensures":
 			if curLemma != nil {
 				cl := mkClause(it, curLemma.Props)
@@ -643,6 +652,10 @@ func (cs *ContractSet) ParseFile(path, pkgPath string) error {
 					t = u
 				}
 				cur.SQLTexts = append(cur.SQLTexts, t)
+			}
+		case "lazyspecs":
+			if cur != nil {
+				cur.LazySpecs = true
 			}
 		case "definitional":
 			if cur != nil {
